@@ -7,6 +7,17 @@ stay inside the subset whose meaning coincides with Python (no bool/int mixing, 
 no mutation of a container of the type being iterated, ASCII strings, small ranges, bounded recursion);
 with probability `p_fail` one run-time failure (index/key/zero-division/type/arity/unbound) is planted.
 
+Feature switches (`features=`; with none given the generator draws exactly the random numbers it always drew):
+  "strings"   string methods / formatting / repr, including the family `rel_str_op`: method calls whose arguments are DERIVED
+              FROM THE RECEIVER (a unit it is built from, a prefix, a suffix, the first character repeated, the whole receiver,
+              something longer, a substring, "") - replace (empty replacement, with and without count), strip family,
+              removeprefix/suffix, find/count/index, startswith/endswith/in, split/partition, join-of-split
+  "repr_str"  repr of values containing strings (Starlark quoting; not comparable with CPython)
+  "effects"   evaluation ORDER made observable: operands wrapped in a tracing def (`tw_stmt`), and blocks (`fx_block`) whose
+              right-hand side / operand / argument calls a def that emits and mutates the container the statement reads or
+              assigns (`a[i] op= rhs`, `a[i] = rhs`, `x += rhs`, displays, operators, method arguments, unpacking, conditions),
+              plus failing variants (`effect_failure`) where the order of the output relative to the failure is what is seen
+
 Node shapes
   expr: ("none",) ("bool",b) ("int",z) ("str",s) ("var",x) ("tuple",[e]) ("list",[e]) ("dict",[(k,v)])
         ("un",op,e) ("bin",op,a,b) ("and",a,b) ("or",a,b) ("ifx",c,t,f) ("index",a,i) ("slice",a,lo,hi,st)
@@ -63,6 +74,13 @@ class Gen:
         self.features = set(features)
         self.strings = "strings" in self.features          # MiniStar stage 2: string methods / formatting / repr
         self.repr_str = "repr_str" in self.features        # repr of values containing strings (Starlark quoting: not comparable with CPython)
+        # "effects": evaluation order made observable - operands wrapped in a tracing def, right-hand sides / operands / arguments
+        # that call a def which emits and mutates the container being read or assigned (only C01 passes it: the helper defs
+        # are ordinary MiniStar, but other users of this generator have their own expectations about the program shape)
+        self.effects = "effects" in self.features
+        self.fx_used = set()
+        self.fx_tag = 9000
+        self.tw_left = 0
         self.counter = 0
         self.budget = max_stmts
         self.fail_planted = False
@@ -416,6 +434,11 @@ class Gen:
     def str_op(self, scope, t, depth):
         """An expression of type t whose outermost operation is a string operation; None if there is none for t."""
         S = lambda: self.expr(scope, STR, depth)
+        if self.chance(0.3):
+            e = self.rel_str_op(scope, t, depth)
+            if e is not None:
+                self.note("receiver_derived_argument")
+                return e
         k = self.rng.random()
         if t == STR:
             if k < 0.14:
@@ -487,6 +510,133 @@ class Gen:
             return ("call", ("var", "enumerate"), [("meth", S(), "elems", [])] + st, [], None, None)
         if t == tlist(ttuple([STR, STR])):
             return ("call", ("var", "zip"), [("meth", S(), "elems", []), ("meth", S(), "elems", [])], [], None, None)
+        return None
+
+    # ---- string methods whose arguments are DERIVED FROM THE RECEIVER -------------------------------------------
+    # Independently drawn receiver and argument almost never stand in an interesting relation (the needle is a prefix / a suffix /
+    # the whole receiver / longer than it, every occurrence lies in one run at the start, occurrences overlap or touch, the
+    # replacement is empty ...).  Here the receiver is a text built from a few repeated units (or a string variable) and the
+    # arguments are computed from it.
+    REL_UNITS = ["a", "b", "ab", "-", "--", " ", "x", "aa", ",", "_", "\n", "A", "0", "ba", ". ", "%", "{}", "\t"]
+
+    def rel_text(self):
+        """(text, units): runs of one unit at the start / the end, adjacent and overlapping occurrences."""
+        units = [self.pick(self.REL_UNITS) for _ in range(self.pick([1, 2, 2, 3]))]
+        parts = []
+        if self.chance(0.55):
+            parts += [units[0]] * self.pick([1, 1, 2, 3])                       # a run of the first unit at the start
+        parts += [self.pick(units) for _ in range(self.pick([0, 0, 1, 2, 3, 4, 5]))]
+        if self.chance(0.2):
+            parts.append(self.str_text(self.pick([1, 2])))                      # something unrelated inside
+        if parts and self.chance(0.3):
+            parts += [self.pick(units)] * self.pick([1, 2])                     # a run at the end
+        return "".join(parts), units
+
+    def rel_arg(self, recv, text, units, nonempty=False):
+        """An argument derived from the receiver: a literal computed from `text` when the receiver is a literal, else a
+        slice expression over the receiver variable.  `nonempty`: the result must not be the empty string."""
+        k = self.rng.random()
+        if text is not None:
+            n = len(text)
+            if k < 0.2:
+                a = self.pick(units)
+            elif k < 0.34:
+                a = text[:self.pick([1, 1, 2, 3])]                               # a prefix
+            elif k < 0.46:
+                a = text[-self.pick([1, 1, 2, 3]):]                              # a suffix
+            elif k < 0.56:
+                a = text[:1] * self.pick([2, 3])                                 # the first character repeated
+            elif k < 0.64:
+                a = text                                                         # the whole receiver
+            elif k < 0.7:
+                a = text + self.pick(units)                                      # longer than the receiver
+            elif k < 0.8:
+                i = self.rng.randint(0, n)
+                a = text[i:self.rng.randint(i, min(n, i + 3))]                   # some substring
+            elif k < 0.9:
+                a = ""
+            elif k < 0.95:
+                a = units[0] * 2
+            else:
+                a = self.pick(self.REL_UNITS)
+            if nonempty and a == "":
+                a = self.pick(units)
+            return ("str", a)
+        ix = lambda: ("int", self.pick([1, 1, 2, 3]))
+        if nonempty:
+            # a non-empty prefix / suffix of the receiver extended by one character
+            u = ("str", self.pick(["a", "-", " ", ","]))
+            return ("slice", ("bin", "+", recv, u), None, ix(), None) if self.chance(0.6) else \
+                ("slice", ("bin", "+", u, recv), ("un", "-", ix()), None, None)
+        if k < 0.25:
+            return ("slice", recv, None, ix(), None)
+        if k < 0.45:
+            return ("slice", recv, ("un", "-", ix()), None, None)
+        if k < 0.6:
+            return ("bin", "*", ("slice", recv, None, ("int", 1), None), ("int", self.pick([2, 3])))
+        if k < 0.7:
+            return recv
+        if k < 0.78:
+            return ("bin", "+", recv, ("str", self.pick(["a", "-", " "])))
+        if k < 0.9:
+            return ("slice", recv, ("int", self.pick([0, 1, 2])), ("int", self.pick([1, 2, 3, 4])), None)
+        return ("str", "")
+
+    def rel_str_op(self, scope, t, depth):
+        """A string-method call of type t whose arguments are derived from its receiver; None if there is none for t."""
+        vs = self.vars_of(scope, STR)
+        if vs and self.chance(0.3):
+            recv, text, units = ("var", self.pick(vs)), None, ["a", "-", " ", ","]
+        else:
+            text, units = self.rel_text()
+            recv = ("str", text)
+        A = lambda nonempty=False: self.rel_arg(recv, text, units, nonempty)
+        count = lambda: [] if self.chance(0.6) else [("int", self.pick([0, 1, 1, 2, 3]))]
+        k = self.rng.random()
+        if t == STR:
+            if k < 0.45:
+                r = self.rng.random()
+                new = ("str", "") if r < 0.5 else ("str", self.pick(units)) if r < 0.75 else A() if r < 0.9 else self.expr(scope, STR, 0)
+                return ("meth", recv, "replace", [A(), new] + count())
+            if k < 0.6:
+                return ("meth", recv, self.pick(["strip", "lstrip", "rstrip"]), [A()])
+            if k < 0.75:
+                return ("meth", recv, self.pick(["removeprefix", "removesuffix"]), [A()])
+            if k < 0.87:
+                return ("index", ("meth", recv, self.pick(["partition", "rpartition"]), [A(True)]), ("int", self.pick([0, 1, 2, -1])))
+            sep = A(True)
+            ms = [] if self.chance(0.6) else [("int", self.pick([0, 1, 2, -1]))]
+            return ("meth", sep if self.chance(0.7) else A(), "join", [("meth", recv, self.pick(["split", "split", "rsplit"]), [sep] + ms)])
+        if t == INT:
+            if k < 0.4:
+                nd = A()
+                return ("meth", recv, self.pick(["find", "rfind"]), [nd] + self.window_args(nd))
+            if k < 0.7:
+                nd = A()
+                return ("meth", recv, "count", [nd] + self.window_args(nd))
+            if k < 0.85:
+                nd = A()
+                if text is not None and nd[1] in text:
+                    return ("meth", recv, self.pick(["index", "rindex"]), [nd])
+                return ("meth", recv, self.pick(["find", "rfind"]), [nd])
+            return ("call", ("var", "len"), [("meth", recv, self.pick(["split", "rsplit"]), [A(True)])], [], None, None)
+        if t == BOOL:
+            if k < 0.6:
+                if self.chance(0.3):
+                    aff = ("tuple", [A() for _ in range(self.rng.randint(1, 3))])
+                    safe = ("str", "x") if all(a[0] == "str" and a[1] != "" for a in aff[1]) else None
+                else:
+                    aff = A()
+                    safe = aff
+                return ("meth", recv, self.pick(["startswith", "endswith"]), [aff] + self.window_args(safe))
+            if k < 0.8:
+                return ("bin", self.pick(["in", "not in"]), A(), recv)
+            return ("bin", self.pick(["==", "!="]), ("meth", recv, "replace", [A(), ("str", "")] + count()), recv)
+        if t == tlist(STR):
+            ms = [] if self.chance(0.5) else [("int", self.pick([0, 1, 2, -1, 5]))]
+            return ("meth", recv, self.pick(["split", "split", "rsplit"]), [A(True)] + ms)
+        if t == ttuple([STR, STR, STR]):
+            return ("meth", recv, self.pick(["partition", "rpartition"]), [A(True)])
         return None
 
     def string_failure(self, scope, depth):
@@ -669,7 +819,263 @@ class Gen:
             return ("expr", ("meth", self.expr(scope, tlist(INT), depth), "remove", [("int", 123456789)]))
         return ("expr", ("call", ("var", "int"), [("str", "12x")], [], None, None))
 
+    # ---- "effects": evaluation order made observable ----------------------------------------------------------------
+    # Helper defs (prepended to the program when used).  Every helper emits a marker, so the position of its evaluation in the
+    # transcript - also relative to a failure - is observed; the mutating ones change the container an enclosing statement reads
+    # or assigns.
+    FX_DEFS = {
+        "tr0": (["k", "v"], [("expr", ("call", ("var", "emit"), [("var", "k")], [], None, None)), ("return", ("var", "v"))]),
+        "set0": (["c", "k", "v", "r"], [("expr", ("call", ("var", "emit"), [("str", "set")], [], None, None)),
+                                        ("assign", ("tindex", ("var", "c"), ("var", "k")), ("var", "v")), ("return", ("var", "r"))]),
+        "app0": (["c", "v", "r"], [("expr", ("call", ("var", "emit"), [("str", "app")], [], None, None)),
+                                   ("expr", ("meth", ("var", "c"), "append", [("var", "v")])), ("return", ("var", "r"))]),
+        "pop0": (["c", "r"], [("expr", ("call", ("var", "emit"), [("str", "pop")], [], None, None)),
+                              ("expr", ("meth", ("var", "c"), "pop", [])), ("return", ("var", "r"))]),
+        "del0": (["c", "k", "r"], [("expr", ("call", ("var", "emit"), [("str", "del")], [], None, None)),
+                                   ("expr", ("meth", ("var", "c"), "pop", [("var", "k")])), ("return", ("var", "r"))]),
+        "clr0": (["c", "r"], [("expr", ("call", ("var", "emit"), [("str", "clr")], [], None, None)),
+                              ("expr", ("meth", ("var", "c"), "clear", [])), ("return", ("var", "r"))]),
+    }
+    FX_ORDER = ["tr0", "set0", "app0", "pop0", "del0", "clr0"]
+
+    def fx(self, name, *args):
+        self.fx_used.add(name)
+        return ("call", ("var", name), list(args), [], None, None)
+
+    def fx_tr(self, e):
+        """e wrapped in the tracing helper: emits a fresh tag when (and where) e has been evaluated."""
+        self.fx_tag += 1
+        self.note("traced_operand")
+        return self.fx("tr0", ("int", self.fx_tag), e)
+
+    def tw(self, e, p):
+        """e with some of its sub-expressions (every operand position of the subset: display elements, operator operands,
+        container / index / slice bounds, receivers, positional and named arguments, branches) wrapped by fx_tr."""
+        k = e[0]
+        rec = lambda x: self.tw(x, p)
+        opt = lambda x: None if x is None else rec(x)
+        if k in ("tuple", "list"):
+            new = (k, [rec(x) for x in e[1]])
+        elif k == "dict":
+            new = ("dict", [(rec(a), rec(b)) for a, b in e[1]])
+        elif k == "un":
+            new = ("un", e[1], rec(e[2]))
+        elif k == "bin":
+            new = ("bin", e[1], rec(e[2]), rec(e[3]))
+        elif k in ("and", "or"):
+            new = (k, rec(e[1]), rec(e[2]))
+        elif k == "ifx":
+            new = ("ifx", rec(e[1]), rec(e[2]), rec(e[3]))
+        elif k == "index":
+            new = ("index", rec(e[1]), rec(e[2]))
+        elif k == "slice":
+            new = ("slice", rec(e[1]), opt(e[2]), opt(e[3]), opt(e[4]))
+        elif k == "call" and e[4] is None and e[5] is None:
+            # callee untouched; named arguments that are bare names (key=len) untouched
+            new = ("call", e[1], [rec(a) for a in e[2]], [(n, v if v[0] in ("var", "lambda") else rec(v)) for n, v in e[3]], None, None)
+        elif k == "meth":
+            if e[2] == "elems":
+                return ("meth", rec(e[1]), e[2], e[3]) + tuple(e[4:])
+            new = ("meth", rec(e[1]), e[2], [rec(a) for a in e[3]], [(n, rec(v)) for n, v in (e[4] if len(e) > 4 else [])])
+        else:
+            # literals and names are wrapped as they are; lambdas / comprehensions are not entered
+            new = e
+            if k in ("lambda", "lcomp", "dcomp", "call") or (k == "var" and self.chance(0.5)):
+                return new
+        if self.tw_left > 0 and self.chance(p):
+            self.tw_left -= 1
+            return self.fx_tr(new)
+        return new
+
+    def tw_target(self, t, p):
+        if t[0] == "tindex":
+            return ("tindex", self.tw(t[1], p), self.tw(t[2], p))
+        if t[0] == "ttuple":
+            return ("ttuple", [self.tw_target(x, p) for x in t[1]])
+        return t
+
+    def tw_stmt(self, s, p):
+        """The statement with (at most a handful of) operands of its own expressions traced (nested blocks are left alone)."""
+        k = s[0]
+        self.tw_left = self.pick([2, 3, 4, 6])
+        if k == "expr":
+            return ("expr", self.tw(s[1], p))
+        if k == "assign":
+            return ("assign", self.tw_target(s[1], p), self.tw(s[2], p))
+        if k == "aug":
+            return ("aug", self.tw_target(s[1], p), s[2], self.tw(s[3], p))
+        if k == "if":
+            return ("if", self.tw(s[1], p), s[2], s[3])
+        if k == "for":
+            return ("for", s[1], self.tw(s[2], p), s[3])
+        if k == "return" and s[1] is not None:
+            return ("return", self.tw(s[1], p))
+        return s
+
+    def fx_container(self, scope):
+        """A fresh list / dict of scalars with statically known indices / keys:
+        -> (statement, name, type, valid key nodes, invalid key nodes)."""
+        et = self.pick([INT, INT, STR])
+        x = self.fresh()
+        if self.chance(0.5):
+            n = self.pick([1, 2, 3, 3, 4])
+            ty = tlist(et)
+            lit = ("list", [self.expr(scope, et, 1) for _ in range(n)])
+            good = [("int", i) for i in range(n)] + [("int", -1 - i) for i in range(n)]
+            bad = [("int", n), ("int", n + 5), ("int", -n - 1)]
+        else:
+            kt = self.pick([INT, STR])
+            ty = tdict(kt, et)
+            keys = ([("int", i) for i in (0, 1, 7, -3, 2 ** 40)] if kt == INT else [("str", c) for c in ("a", "b", "", "k 1", "zz")])
+            self.rng.shuffle(keys)
+            n = self.pick([1, 2, 3, 3])
+            lit = ("dict", [(k, self.expr(scope, et, 1)) for k in keys[:n]])
+            good, bad = keys[:n], keys[n:]
+        scope["vars"][x] = ty
+        scope["mutates"].add(ty)
+        return ("assign", ("tvar", x), lit), x, ty, good, bad
+
+    def fx_rhs(self, scope, c, ty, good, bad, key, rt=None):
+        """An effectful expression of type rt (default: the element type): calls a helper that emits and (mostly) mutates
+        the container `c` - the element under `key`, another element, or the shape of the container."""
+        et = ty[1] if ty[0] == "list" else ty[2]
+        rt = rt or et
+        C = ("var", c)
+        v = lambda: self.expr(scope, et, 0)
+        r = lambda: self.expr(scope, rt, 0)
+        k = self.rng.random()
+        if k < 0.15:
+            return self.fx_tr(self.expr(scope, rt, 1))
+        if k < 0.55:
+            return self.fx("set0", C, key, v(), r())                                      # overwrites the element itself
+        if k < 0.68:
+            return self.fx("set0", C, self.pick(good), v(), r())                          # some element
+        if k < 0.8:
+            if ty[0] == "list":
+                return self.fx("app0", C, v(), r())
+            return self.fx("set0", C, self.pick(bad), v(), r())                           # inserts a new key
+        if k < 0.9:
+            if ty[0] == "list":
+                return self.fx("pop0", C, r())                                            # (indices may shift / the store may fail)
+            return self.fx("del0", C, self.pick(good), r())                               # the key is re-inserted at the end by a store
+        if ty[0] == "dict":
+            return self.fx("clr0", C, r())
+        return self.fx("set0", C, key, v(), self.fx_tr(r()))
+
+    def fx_block(self, scope):
+        """A fresh container, one statement whose meaning depends on WHEN an effectful operand is evaluated relative to
+        the reads / the store of that statement, and the container emitted afterwards."""
+        mk, c, ty, good, bad = self.fx_container(scope)
+        et = ty[1] if ty[0] == "list" else ty[2]
+        C = ("var", c)
+        key = self.pick(good)
+        op = self.pick(["+", "+", "-", "*", "|", "&"]) if et == INT else "+"
+        E = lambda rt=None: self.fx_rhs(scope, c, ty, good, bad, key, rt)
+        rd = lambda: ("index", C, key)
+        emit = lambda e: ("expr", ("call", ("var", "emit"), [e], [], None, None))
+        k = self.rng.random()
+        self.note("effect_block")
+        if k < 0.34:
+            self.note("effect_aug_index")
+            st = ("aug", ("tindex", C, key), op, E())                                     # read c[key] BEFORE the rhs, store after
+        elif k < 0.46:
+            self.note("effect_assign_index")
+            st = ("assign", ("tindex", C, key if self.chance(0.7) or ty[0] == "list" else self.pick(bad)), E())   # rhs first
+        elif k < 0.54 and ty[0] == "list":
+            self.note("effect_aug_var")
+            st = ("aug", ("tvar", c), "+", self.pick([self.fx("app0", C, self.expr(scope, et, 0), ("list", [self.expr(scope, et, 0)])),
+                                                      self.fx("set0", C, key, self.expr(scope, et, 0), ("list", [rd()])),
+                                                      self.fx_tr(("list", [rd()]))]))
+        elif k < 0.66:
+            self.note("effect_display")
+            shape = self.pick(["tuple", "list", "dict", "call"])
+            items = [rd(), E(), rd()] + ([E(), rd()] if self.chance(0.3) else [])
+            if shape == "dict":
+                st = emit(("dict", [(("int", i), x) for i, x in enumerate(items)]))
+            elif shape == "call":
+                st = emit(self.fx("tr0", rd(), ("tuple", items[1:])))
+            else:
+                st = emit((shape, items))
+        elif k < 0.76:
+            self.note("effect_operands")
+            if et == INT:
+                st = emit(("bin", self.pick(["+", "-", "*"]), ("bin", self.pick(["+", "-", "*"]), rd(), E()), rd()))
+            else:
+                st = emit(("bin", "+", ("bin", "+", rd(), E()), rd()))
+        elif k < 0.86:
+            self.note("effect_method_args")
+            if ty[0] == "list":
+                st = self.pick([("expr", ("meth", C, "append", [E()])), ("expr", ("meth", C, "insert", [self.fx_tr(self.small_index()), E()])),
+                                ("expr", ("meth", C, "extend", [("list", [rd(), E(), rd()])]))])
+            else:
+                st = self.pick([emit(("meth", C, "setdefault", [self.pick(good + bad), E()])), emit(("meth", C, "get", [self.pick(good + bad), E()])),
+                                emit(("meth", C, "pop", [self.pick(good + bad), E()])),
+                                ("expr", ("meth", C, "update", [("dict", [(self.pick(bad), E()), (key, rd())])]))])
+        elif k < 0.93:
+            self.note("effect_unpack")
+            # targets are assigned left to right after the whole right-hand side
+            k2 = self.pick(good)
+            st = ("assign", ("ttuple", [("tindex", C, key), ("tindex", self.fx_tr(C), k2)]), ("tuple", [E(), rd()]))
+        else:
+            self.note("effect_condition")
+            st = ("if", ("bin", "==", rd(), ("bin", op, E(), rd())) if et == INT else ("bin", "<", rd(), ("bin", "+", E(), rd())),
+                  [emit(rd())], [emit(("tuple", [rd(), ("int", 0)]))])
+        return [mk, st, emit(C)]
+
+    def effect_failure(self, scope):
+        """Statements ending in a run-time failure where the ORDER of the emitted output relative to the failure is observed."""
+        self.fail_planted = True
+        self.note("planted_failure")
+        self.note("planted_effect_failure")
+        k = self.rng.random()
+        if k < 0.3:
+            # any planted failure with its operands traced
+            self.fail_planted = False
+            return [self.tw_stmt(self.planted_failure(scope, 2), 0.8)]
+        mk, c, ty, good, bad = self.fx_container(scope)
+        et = ty[1] if ty[0] == "list" else ty[2]
+        C = ("var", c)
+        key = self.pick(good)
+        op = self.pick(["+", "-", "*", "|"]) if et == INT else "+"
+        E = lambda key=key: self.fx_rhs(scope, c, ty, good, bad, key)
+        tr = lambda e: self.fx_tr(e) if self.chance(0.5) else e
+        if k < 0.55:
+            st = ("aug", ("tindex", tr(C), tr(self.pick(bad))), op, E())                   # the read fails: the rhs must not have run
+        elif k < 0.67 and ty[0] == "list":
+            st = ("assign", ("tindex", tr(C), tr(self.pick(bad))), E())                    # the rhs runs, then the store fails
+        elif k < 0.77 and ty[0] == "list":
+            st = ("aug", ("tindex", C, key), op, self.fx("clr0", C, self.expr(scope, et, 0)))   # read, rhs empties the list, the store fails
+        elif k < 0.87:
+            other = STR if et == INT else INT
+            st = ("aug", ("tindex", tr(C), tr(key)), "+", self.fx_tr(self.expr(scope, other, 0)))   # operand type error after the rhs
+        else:
+            st = ("expr", ("call", ("var", "emit"), [("tuple", [E(), ("index", tr(C), tr(self.pick(bad))), E()])], [], None, None))
+        return [mk, st]
+
     def stmt(self, scope, depth):
+        if self.strings and self.chance(0.06):
+            # a string method applied to arguments derived from its receiver, observed directly
+            self.budget -= 1
+            e = self.rel_str_op(scope, self.pick([STR, STR, STR, INT, INT, BOOL, tlist(STR), ttuple([STR, STR, STR])]), 1)
+            self.note("string_op")
+            self.note("receiver_derived_argument")
+            self.note_str_op(e)
+            self.uses_strings = True
+            return [("expr", ("call", ("var", "emit"), [e], [], None, None))]
+        if not self.effects:
+            return self.stmt0(scope, depth)
+        if self.want_fail and not self.fail_planted and self.chance(0.05):
+            self.budget -= 1
+            return self.effect_failure(scope)
+        if self.chance(0.08):
+            self.budget -= 2
+            return self.fx_block(scope)
+        out = self.stmt0(scope, depth)
+        if self.chance(0.12):
+            out = [self.tw_stmt(s, self.pick([0.25, 0.5, 0.8])) for s in out]
+        return out
+
+    def stmt0(self, scope, depth):
         self.budget -= 1
         r = self.rng.random()
         d = self.max_depth - 1
@@ -843,8 +1249,13 @@ class Gen:
             out += self.stmt(scope, self.max_depth)
             scope["own"].update(set(scope["vars"]) - before)
         if self.want_fail and not self.fail_planted:
-            out.append(self.planted_failure(scope, 2))
+            if self.effects and self.chance(0.3):
+                out += self.effect_failure(scope)
+            else:
+                out.append(self.planted_failure(scope, 2))
         out.append(("expr", ("call", ("var", "emit"), [("int", 424242)], [], None, None)))
+        # the effect helpers this program uses are defined first
+        out = [("def", h, [("p", x, None) for x in self.FX_DEFS[h][0]], list(self.FX_DEFS[h][1])) for h in self.FX_ORDER if h in self.fx_used] + out
         return out
 
 
